@@ -95,6 +95,10 @@ func runLBHealth(x *X) {
 	var obs []healthObs
 	evPos := 0
 	clients := []string{"192.0.2.1", "192.0.2.2", "198.51.100.7", "203.0.113.9", "2001:db8::1", "10.9.8.7"}
+	var manyClients []string
+	for j := 0; j < 40; j++ {
+		manyClients = append(manyClients, fmt.Sprintf("10.%d.%d.%d", 1+j%7, (j*37)%251, 1+(j*11)%250))
+	}
 	var steps []string
 
 	observe := func() *healthObs {
@@ -378,7 +382,23 @@ func runLBHealth(x *X) {
 	}
 
 	for i := 0; i < nSteps && !x.dead; i++ {
-		switch c.Pick([]int{8, 4, 3, 4, 2, 2, 2}, "step") {
+		switch c.Pick([]int{8, 4, 3, 4, 2, 2, 2, 2}, "step") {
+		case 7: // biased pattern: a backend starts failing and a burst of concurrent requests from
+			// different clients arrives: picks of other requests overlap the ejection
+			b := net.order[c.Intn(nb, "backend")]
+			m := failModes[c.Intn(len(failModes), "failmode")]
+			net.mu.Lock()
+			b.mode = m
+			net.mu.Unlock()
+			x.Fault("backend-" + m)
+			k := 3 + c.Intn(4, "burst")
+			steps = append(steps, fmt.Sprintf("fail-then-burst(%s,%s,%d)", b.name, m, k))
+			var ts []*simrt.Task
+			for j := 0; j < k; j++ {
+				cl := manyClients[c.Intn(len(manyClients), "client")]
+				ts = append(ts, s.Spawn("burst", func() { h.do(reqSpec{client: cl, path: "/fburst"}) }))
+			}
+			x.WaitFor(onErr, ts...)
 		case 6: // biased pattern: failures of requests already in flight arrive late — inside the
 			// window they did not cause, or after it has quietly elapsed — then traffic resumes
 			net.mu.Lock()
